@@ -102,6 +102,7 @@ def analyse_chunk(arg):
         return None
     prog = st["prog"]
     out = []
+    keep_text = None
     for lang in TRAITS:
         if not applicable(prog, lang):
             continue
@@ -115,7 +116,72 @@ def analyse_chunk(arg):
             except Exception as e:  # noqa: BLE001 - an observation about the code under test
                 got, clause = repr(e), "NormalReturn:" + type(e).__name__
             out.append((lang, lay, clause, text if clause else None, want if clause else None, got if clause else None))
-    return {"prog": [dict(it) for it in prog], "results": out}
+            if keep_text is None and lang in ("JavaScript", "Python", "Java", "C#", "TypeScript") and sum(1 for it in prog if it["k"] == "F") >= 2:
+                keep_text = (lang, text)
+    return {"prog": [dict(it) for it in prog], "results": out, "text": keep_text}
+
+
+def record_scopes(arg):
+    """Intermediates of the real build_scopes for ScopesTrace.tla (drift only). None if the internals moved."""
+    lang, text = arg
+    try:
+        from codelimit.common.lexer_utils import lex
+        from codelimit.common.scope import scope_utils as su
+        from codelimit.common.source_utils import filter_tokens
+        from ..langs import language, lexer_for
+
+        L = language(lang)
+        if not L.allow_nested_functions:
+            return None
+        tokens = lex(lexer_for(lang), text, False)
+        code = filter_tokens(tokens)
+        headers = L.extract_headers(code)
+        blocks = L.extract_blocks(code, headers)
+        scopes = su.build_scopes(tokens, L)
+    except (ImportError, AttributeError):
+        return None
+    flat = []
+
+    def walk(sc, parent):
+        flat.append((sc, parent))
+        me = len(flat)
+        for ch in sc.children:
+            walk(ch, me)
+
+    for sc in scopes:
+        walk(sc, 0)
+    order = sorted(range(len(flat)), key=lambda k: flat[k][0].header.token_range.start)
+    pos = {k: n + 1 for n, k in enumerate(order)}
+    obs = []
+    for k in order:
+        sc, parent = flat[k]
+        obs.append({"hs": sc.header.token_range.start, "he": sc.header.token_range.end, "bs": sc.block.start, "be": sc.block.end, "parent": pos[parent - 1] if parent else 0, "len": su.count_lines(sc, code)})
+    hs = sorted([[h.token_range.start, h.token_range.end] for h in headers])
+    bl = sorted([[b.start, b.end] for b in blocks], key=lambda b: (code[b[0]].location.line, code[b[0]].location.column))
+    return {"headers": hs, "blocks": bl, "lines": [t.location.line for t in code], "scopes": obs, "nests": True}
+
+
+def scopes_model(wd, tier, texts):
+    """M: Scopes.tla model-checked; A: real intermediates recomputed by TLC (drift only)."""
+    from ..tlaval import parse
+
+    m = tlc.run("Scopes", tlc.cfg({"MaxLen": 7 if tier == "quick" else 9}, spec="Spec", invariants=["WellFormedResult", "LengthBoundsHold", "CanonicalResultIsTheObviousOne", "ScopesNestOrAreDisjoint"]), wd, cfgname="Scopes_run.cfg")
+    res = pmap(record_scopes, texts, timeout=120, chunk=16)
+    events = [r[1] for r in res if r[0] == "ok" and r[1] is not None and len(r[1]["lines"]) <= 2500]
+    drift = []
+    if events:
+        trace = wd / "scopes_trace.ndjson"
+        with open(trace, "w") as f:
+            for k, ev in enumerate(events):
+                f.write(json.dumps({"id": k, **ev}) + "\n")
+        a = tlc.run("ScopesTrace", tlc.cfg({"MaxLen": 0}, spec="TSpec", postcondition="AllConsumed"), wd, workers=1, env={"TRACE_FILE": str(trace)}, coverage=False, cfgname="ScopesTrace_run.cfg", timeout=1800)
+        if a.rc != 0 or a.violated:
+            raise MachineryError("ScopesTrace did not consume the whole trace:\n" + a.out[-1200:])
+        for pr in a.prints:
+            if pr.startswith('<<"DRIFT"'):
+                v = parse(pr)
+                drift.append(f"build_scopes intermediates of recorded stream #{v[1]} differ from Scopes.tla: {v[2]}")
+    return m, len(events), drift
 
 
 def classify(prog, lang, clause):
@@ -141,6 +207,7 @@ def run(tier: str) -> int:
     per_cfg = []
     samples = []
     cover = {}
+    scope_texts = []
     for cfg in CONFIGS[tier]:
         consts = {k: cfg[k] for k in ("MaxItems", "MaxDepth", "Reps", "FVariants", "SVariants", "Allowed")}
         m = tlc.run("Program", tlc.cfg(consts, spec="Spec", invariants=["Sane", "Balanced"]), wd, dump=True, cfgname=f"Program_{cfg['name']}.cfg")
@@ -163,6 +230,8 @@ def run(tier: str) -> int:
             if o is None:
                 continue
             n_prog += 1
+            if o.get("text") and len(scope_texts) < 3000 and n_prog % 2 == 0:
+                scope_texts.append(tuple(o["text"]))
             for (lang, lay, clause, text, want, got) in o["results"]:
                 na += 1
                 if clause:
@@ -173,11 +242,23 @@ def run(tier: str) -> int:
         n_analyses += na
         per_cfg.append({"config": cfg["name"], "constants": consts, "layouts": cfg["layouts"], "states": m.distinct, "programs": len(chunks), "analyses": na, "disagreements": bad})
         log(f"[C01] {cfg['name']}: {m.distinct} states, {len(chunks)} complete programs, {na} analyses, {bad} disagreements, {t.s()}s")
+    # the implementation-shaped model of pairing / folding / counting, bound to the real intermediates (drift only)
+    from ..langs import corpus_files
+
+    sm, n_sc, sdrift = scopes_model(wd, tier, scope_texts[:400] + [(l, t_) for l, _p, t_ in corpus_files()])
+    if sm.violated:
+        raise MachineryError(f"Scopes.tla invariant violated: {sm.violated} (the model of the repaired code must satisfy them)")
+    for d in sdrift:
+        rep.model_drift(d)
+    tot_states += sm.distinct
+    tot_trans += sm.transitions
+    log(f"[C01] Scopes.tla: {sm.distinct} abstract token sequences model-checked; {n_sc} recorded build_scopes intermediates recomputed by TLC, {len(sdrift)} drift, {t.s()}s")
     rc = rep.finish()
     evidence.write(
         PROP, tier, level="model_checking", wall_s=t.s(), violations=rep.n_violations,
         coverage={
-            "states": tot_states, "transitions": tot_trans, "traces_validated_against_impl": n_analyses, "exhaustive": True,
+            "states": tot_states, "transitions": tot_trans, "traces_validated_against_impl": n_analyses + n_sc, "exhaustive": True,
+            "scopes_model": {"module": "Scopes.tla / ScopesTrace.tla", "abstract_sequences": sm.distinct, "recorded_intermediates": n_sc, "drift": len(sdrift)},
             "samples": samples or [{"note": "no program with >= 4 items in this run"}],
             "programs": n_prog, "configurations": per_cfg, "languages": list(TRAITS), "layouts": LAYOUTS,
             "model": {"module": "Program.tla", "invariants": ["Sane", "Balanced"], "actions": cover},
